@@ -852,6 +852,28 @@ func pstC15Policy(g *sim.Tape, tier string) sim.Policy {
 	return sim.Policy{SwitchNum: 1, SwitchDen: []int{2, 3, 5, 10}[g.Int(4)]}
 }
 
+// commit-phase fault plan of one transaction of the C15 client
+const (
+	pstTxFailCallback  = iota // the callback returns an error after its mutations (explicit rollback)
+	pstTxFailPreCommit        // the hook-th pre-commit hook is replaced by an error (the earlier ones ran)
+	pstTxFailPreCommit2       // (same, double weight)
+	pstTxFailBeforeDB         // every pre-commit hook ran, the commit fails before it reaches the database
+	pstTxFailCommit           // every pre-commit hook ran, the database COMMIT itself fails
+	pstTxFailKinds
+)
+
+var pstTxFailNames = []string{"explicit-rollback", "pre-commit-hook-fails", "pre-commit-hook-fails", "commit-fails-before-database", "database-commit-fails"}
+
+var errPstAbortTx = errors.New("verif: the client aborts its transaction")
+
+type pstTxFault struct {
+	kind      int
+	hook      int
+	tx        *sql.Tx
+	fired     bool
+	hooksSeen int
+}
+
 func runC15(rc *RunCtx) (*Violation, error) {
 	g := rc.Gen()
 	stack := GenStack(g, true)
@@ -1126,6 +1148,189 @@ func runC15(rc *RunCtx) (*Violation, error) {
 		return nil
 	}
 
+	// Commit-phase faults of the client's own transaction (the outbox worker's
+	// transactions pass the same points and are left alone): an error at the
+	// txFault.hook-th pre-commit hook, before the database commit, or a COMMIT
+	// that itself fails (the sql.Tx is rolled back under the controller, so the
+	// real Commit right after the point returns an error, as in scen/c03.go).
+	var txFault *pstTxFault
+	rc.S.AddObserver(func(t *sim.Task, site string, args []any) error {
+		f := txFault
+		if f == nil || f.tx == nil || len(args) == 0 {
+			return nil
+		}
+		if tx, _ := args[0].(*sql.Tx); tx != f.tx {
+			return nil
+		}
+		switch site {
+		case "tx.precommit":
+			f.hooksSeen++
+			if f.kind == pstTxFailPreCommit && len(args) > 1 {
+				if idx, ok := args[1].(int); ok && idx == f.hook {
+					f.fired = true
+					return &seams.InjectedError{Site: fmt.Sprintf("tx.precommit#%d", idx)}
+				}
+			}
+		case "tx.commit.before_db":
+			switch f.kind {
+			case pstTxFailBeforeDB:
+				f.fired = true
+				return &seams.InjectedError{Site: "tx.commit.before_db"}
+			case pstTxFailCommit:
+				f.fired = true
+				_ = f.tx.Rollback()
+			}
+		}
+		return nil
+	})
+	// failingTx runs one transaction of 1-3 mutations on distinct ids (overwrites and
+	// deletes of live parts mostly) that fails at a drawn point, then reads everything
+	// back: a failed transaction leaves every part as it was, an acknowledged one
+	// leaves exactly its mutations.
+	failingTx := func() *Violation {
+		kind := g.Int(pstTxFailKinds)
+		if kind == pstTxFailPreCommit2 {
+			kind = pstTxFailPreCommit
+		}
+		f := &pstTxFault{kind: kind, hook: g.Int(3)}
+		if g.Chance(1, 4) {
+			f.hook += g.Int(8)
+		}
+		nMut := 1 + g.Int(3)
+		base := g.Int(nIds)
+		type mutation struct {
+			i    int
+			del  bool
+			live bool
+			data []byte
+			desc string
+			body *seams.Body
+		}
+		var muts []mutation
+		touched := map[int]bool{}
+		for m := 0; m < nMut; m++ {
+			mu := mutation{i: (base + m) % nIds, desc: "delete"}
+			_, mu.live = model[mu.i]
+			if mu.live {
+				mu.del = g.Chance(1, 3)
+			} else {
+				mu.del = g.Chance(1, 4)
+			}
+			if !mu.del {
+				mu.data, mu.desc = genContent()
+				mu.body = bodyFor(mu.data)
+				mu.desc = "put " + mu.desc
+			}
+			if mu.live {
+				mu.desc += " (live)"
+			}
+			touched[mu.i] = true
+			muts = append(muts, mu)
+		}
+		abortAfter := nMut
+		if kind == pstTxFailCallback {
+			abortAfter = 1 + g.Int(nMut)
+		}
+		var descs []string
+		for k, mu := range muts {
+			if k < abortAfter {
+				descs = append(descs, fmt.Sprintf("id%d %s", mu.i, mu.desc))
+			}
+		}
+		how := pstTxFailNames[kind]
+		if kind == pstTxFailPreCommit {
+			how = fmt.Sprintf("%s #%d", how, f.hook)
+		}
+		var opErr error
+		txFault = f
+		err := database.WithTx(env.ctx, env.w.DB, &sql.TxOptions{}, func(ctx context.Context, tx database.Tx) error {
+			f.tx = tx.SqlTx()
+			for k, mu := range muts {
+				if k >= abortAfter {
+					break
+				}
+				var err error
+				if mu.del {
+					err = env.top.DeletePart(ctx, tx, idOf(mu.i))
+				} else {
+					err = env.top.PutPart(ctx, tx, idOf(mu.i), mu.body)
+				}
+				if err != nil {
+					opErr = fmt.Errorf("id%d %s: %w", mu.i, mu.desc, err)
+					return err
+				}
+			}
+			if kind == pstTxFailCallback {
+				f.fired = true
+				return errPstAbortTx
+			}
+			return nil
+		})
+		txFault = nil
+		rc.Logf("failing tx [%s; fault: %s, fired=%v, pre-commit hooks run: %d] -> %v", strings.Join(descs, "; "), how, f.fired, f.hooksSeen, err)
+		if opErr != nil {
+			return rc.Fail("put", "put-error:"+tag, "stack %s: a part mutation inside a transaction failed without any injected fault: %v", stack, opErr)
+		}
+		if err != nil && !f.fired {
+			return rc.Fail("put", "batch-error:"+tag, "stack %s: a transaction [%s] failed without any injected fault: %v", stack, strings.Join(descs, "; "), err)
+		}
+		failed := err != nil
+		if failed {
+			rc.Stats.Inc("fault.c15.tx." + pstTxFailNames[kind])
+			for k, mu := range muts {
+				if k >= abortAfter || !mu.live {
+					continue
+				}
+				if mu.del {
+					rc.Stats.Inc("probe.c15.failed_tx.delete_of_live_part")
+				} else {
+					rc.Stats.Inc("probe.c15.failed_tx.overwrite_of_live_part")
+				}
+			}
+			if kind != pstTxFailCallback && (kind != pstTxFailPreCommit || f.hook > 0) && f.hooksSeen > 0 {
+				rc.Stats.Inc("probe.c15.failed_tx.after_precommit_hooks_ran")
+			}
+		} else {
+			// the fault point was not reached (fewer hooks than drawn): the transaction committed
+			rc.Stats.Inc("probe.c15.failed_tx.fault_not_reached")
+			for k, mu := range muts {
+				if k >= abortAfter {
+					break
+				}
+				if mu.del {
+					delete(model, mu.i)
+				} else {
+					model[mu.i] = mu.data
+					puts++
+				}
+			}
+		}
+		if g.Chance(1, 3) {
+			rc.S.Sleep([]time.Duration{time.Millisecond, 1500 * time.Millisecond, 6 * time.Second}[g.Int(3)])
+		}
+		check := func() *Violation {
+			if v := checkIds(g.Chance(1, 3)); v != nil {
+				return v
+			}
+			// every part the transaction touched, and one drawn other part
+			extra := g.Int(nIds)
+			for i := 0; i < nIds; i++ {
+				if !touched[i] && i != extra {
+					continue
+				}
+				if v := checkGet(i, g.Int(4), pstReadSchedule(g), "after "+how); v != nil {
+					return v
+				}
+			}
+			return nil
+		}
+		v := check()
+		if v != nil && failed {
+			return rc.Fail("failed-tx", "trace-after-failed-tx:"+pstTxFailNames[kind]+":"+v.FindingKey, "stack %s: a transaction [%s] failed (%s: %v) and must leave every part as it was, but: %s", stack, strings.Join(descs, "; "), how, err, v.Message)
+		}
+		return v
+	}
+
 	v, err := pstRunClient(rc, func() *Violation {
 		for op := 0; op < nOps; op++ {
 			i := g.Int(nIds)
@@ -1233,7 +1438,29 @@ func runC15(rc *RunCtx) (*Violation, error) {
 				rc.Stats.Inc("probe.c15.outbox_drained")
 			}
 		}
-		return checkAll("final")
+		if v := checkAll("final"); v != nil {
+			return v
+		}
+		// failed transactions (drawn after everything above, so that the draws of the
+		// history keep their meaning): overwrites / deletes of the parts the history
+		// left behind in transactions that fail by an explicit rollback or at a
+		// commit-phase point, with acknowledged puts in between
+		budget += 600 * 1024
+		nFail := 2 + g.Int(4)
+		for r := 0; r < nFail; r++ {
+			if len(model) == 0 || g.Chance(1, 3) {
+				if v := doPut(g.Int(nIds), []int{pstTxRW, pstTxRW, pstTxFree}[g.Int(3)]); v != nil {
+					return v
+				}
+			}
+			if v := failingTx(); v != nil {
+				return v
+			}
+		}
+		if hasOutbox {
+			rc.S.Sleep(8 * time.Second)
+		}
+		return checkAll("final after failed transactions")
 	})
 	if softResurrected {
 		rc.Stats.Inc("probe.c15.absent_part_read_succeeded")
@@ -1255,7 +1482,7 @@ func runC15(rc *RunCtx) (*Violation, error) {
 func init() {
 	Register(&Scenario{
 		Prop: "C15", Name: "partstore-roundtrip", Policy: pstC15Policy,
-		Rule: "a part-store stack from the GenStack swarm (filesystem / SQL / erasure-coded bottoms under up to 3 of gzip|zstd with drawn sample size and ratio, tink, tink+ML-KEM, cache with tiny key/size/part limits on both persistors, outbox with its worker running), optionally with a yielding seam between all layers, is driven at the PartStore API by one client task for 8-21 operations on 5 part ids: PutPart (new and overwrite; in a transaction or tx-free where advertised; bodies delivered with drawn read-size schedules incl. zero-length reads and EOF-with-data), GetPart (read-only tx, read-write tx, tx-free, WithTxReadClosers; drawn read sizes; abandoned half-way reads), DeletePart, GetPartIds, two mutations in one transaction, and sleeps of 1 ms-40 s so that reads hit pending outbox entries as well as the flushed inner store and the cache's fill/hit/evict/oversize paths; contents are empty, incompressible, constant, text, half-and-half and the stored image of an earlier part, with sizes at +-2 (sometimes +-70) of every boundary the stack's parameters define (sample size, stripe and shard size, tink segment, cache part/size limit) and every power of two up to 256 KiB; oracle: map part id -> bytes (exact bytes, GetPartIds == live ids, absent part == ErrPartNotFound), full checkpoints every 6 ops and after the outbox drained; the scheduler interleaves the outbox worker with the client at every seam; non-trivial = at least one acknowledged put and one compared full read",
+		Rule: "a part-store stack from the GenStack swarm (filesystem / SQL / erasure-coded bottoms under up to 3 of gzip|zstd with drawn sample size and ratio, tink, tink+ML-KEM, cache with tiny key/size/part limits on both persistors, outbox with its worker running), optionally with a yielding seam between all layers, is driven at the PartStore API by one client task for 8-21 operations on 5 part ids: PutPart (new and overwrite; in a transaction or tx-free where advertised; bodies delivered with drawn read-size schedules incl. zero-length reads and EOF-with-data), GetPart (read-only tx, read-write tx, tx-free, WithTxReadClosers; drawn read sizes; abandoned half-way reads), DeletePart, GetPartIds, two mutations in one transaction, and sleeps of 1 ms-40 s so that reads hit pending outbox entries as well as the flushed inner store and the cache's fill/hit/evict/oversize paths; contents are empty, incompressible, constant, text, half-and-half and the stored image of an earlier part, with sizes at +-2 (sometimes +-70) of every boundary the stack's parameters define (sample size, stripe and shard size, tink segment, cache part/size limit) and every power of two up to 256 KiB; oracle: map part id -> bytes (exact bytes, GetPartIds == live ids, absent part == ErrPartNotFound), full checkpoints every 6 ops and after the outbox drained; then 2-5 FAILING TRANSACTIONS on the parts the history left behind (with acknowledged puts in between): 1-3 mutations of distinct ids in one transaction (overwrite 2 in 3 / delete 1 in 3 of a live part, put 3 in 4 / delete 1 in 4 of an absent id) that fails by an explicit rollback (the callback returns an error after 1..n of its mutations), at the k-th pre-commit hook (k drawn 0-2, sometimes up to 10: the earlier hooks - filesystem publish renames, one per shard under erasure coding - have run), before the database commit (all pre-commit hooks ran) or by a COMMIT that itself fails (the sql.Tx is rolled back under the controller at tx.commit.before_db); only the client's own transaction is hit, never the outbox worker's; oracle: after a failed transaction GetPartIds and every touched id plus one drawn other id read back exactly as before it (exact previous bytes / not found), in a drawn read mode, optionally after a sleep; a transaction whose fault point was not reached committed and leaves exactly its mutations; the scheduler interleaves the outbox worker with the client at every seam; non-trivial = at least one acknowledged put and one compared full read",
 		Real: append([]string{"partstore middlewares: compression (gzip, zstd), encryption/tink (local KMS, optional ML-KEM-1024), erasurecoding, cache (+ internal/cache GenericCache, LFU / evict-nothing policies, in-memory and filesystem persistors), outbox (+ worker, partoutboxentry repository)"}, pstRealStores...),
 		Stub: []string{"no storage layer above the part stores (the part GC is not running)", "bottom stores wrapped by a pass-through guard that records (and defuses) a PutPart failing without consuming its input pipe"},
 		Run:  runC15,
@@ -2480,5 +2707,291 @@ func init() {
 		Real: append([]string{"partstore middleware erasurecoding (PutPart, GetPart, openPartReaders, newPartReader heal-on-read, partLocker)", "github.com/klauspost/reedsolomon"}, pstRealStores...),
 		Stub: []string{"stored-byte faults are applied by the harness directly on the shard stores", "background heal scan disabled (heal-on-read only)", "no storage layer above the part stores", "shard stores wrapped by a pass-through guard that records a heal PutPart failing without consuming its input pipe and closes the pipe (without it the run deadlocks inside pithos)"},
 		Run:  runC17,
+	})
+}
+
+// ---------------------------------------------------------------------------
+// C17 read vs rewrite of one erasure-coded part (the per-part lock)
+// ---------------------------------------------------------------------------
+
+func pstC17RacePolicy(g *sim.Tape, tier string) sim.Policy {
+	return sim.Policy{SwitchNum: 1, SwitchDen: []int{2, 3, 5}[g.Int(3)]}
+}
+
+// runC17Race: one reader and one writer (rewrite or delete) of the same part id
+// overlap. The erasure-coding store opens its shards one after the other; a
+// rewrite that gets in between hands the reader shards of two generations, every
+// one of them valid on its own. Only the store's per-part lock prevents that. The
+// seam above the store never lets a task wait on that sync.RWMutex (synctest
+// cannot park there); whether a call would wait is asked of the REAL lock
+// (world.ecLockProbe), so a lock that fails to exclude lets the writer through
+// here exactly as it would in production.
+func runC17Race(rc *RunCtx) (*Violation, error) {
+	g := rc.Gen()
+	dp := [][2]int{{2, 1}, {3, 2}, {4, 2}}[g.Int(3)]
+	data, parity := dp[0], dp[1]
+	total := data + parity
+	stripeShard := []int{1024, 2048, 4096}[g.Int(3)]
+	shardBottom := []string{"fs", "fs", "sql"}[g.Int(3)]
+	stack := world.StackSpec{Layers: []world.LayerSpec{{Kind: "ec", Data: data, Parity: parity, StripeShard: stripeShard, ShardBottom: shardBottom}}}
+	env, err := pstStartStack(rc, world.Spec{Default: stack})
+	if err != nil {
+		return nil, err
+	}
+	shards := make([]*seams.PS, total)
+	for i := range shards {
+		shards[i] = env.w.Bottoms[fmt.Sprintf("default.shard%d", i)]
+		if shards[i] == nil {
+			return nil, fmt.Errorf("no bottom seam for shard %d", i)
+		}
+	}
+	var ecSeam *seams.PS
+	for _, sm := range env.w.Seams {
+		if sm.LockModel {
+			ecSeam = sm
+		}
+	}
+	if ecSeam == nil {
+		return nil, fmt.Errorf("no seam above the erasure-coding store")
+	}
+	if env.w.LockProbeErr != nil {
+		// the part locker no longer has the layout the probe knows: the self-kept lock
+		// model decides (and hides a lock that does not exclude)
+		rc.Stats.Inc("probe.c17.race.lock_probe_unavailable")
+		rc.Logf("lock probe unavailable: %v", env.w.LockProbeErr)
+	}
+	stripe := data * stripeShard
+	drawLen := func() int {
+		switch g.Int(8) {
+		case 0:
+			return 1 + g.Int(data+1)
+		case 1:
+			return 1 + g.Int(stripe)
+		}
+		n := (1+g.Int(3))*stripe + g.Range(-2, 2)
+		if g.Chance(1, 3) {
+			n += g.Int(stripe)
+		}
+		return n
+	}
+	txFreePut := env.caps.Has(partstore.CapabilityTxFreePutPart) && env.caps.Has(partstore.CapabilityTxFreeDeletePart)
+	idA, idRef := pstPartId(1), pstPartId(2)
+	rounds := 3 + g.Int(4)
+	rc.Logf("stack %s: %d shards, stripe %d bytes, tx-free writes=%v, %d rounds", stack, total, stripe, txFreePut, rounds)
+	rc.Stats.Inc(fmt.Sprintf("probe.c17.race.config.%d+%d.%s", data, parity, shardBottom))
+
+	judged := 0
+	outcomes := sha256.New()
+	v, err := pstRunClient(rc, func() *Violation {
+		var cur []byte // nil: the part does not exist
+		for r := 0; r < rounds; r++ {
+			if cur == nil {
+				cur = pstRandomBytes(g.Draw(1<<62), drawLen())
+				if err := env.put(pstTxRW, idA, seams.NewBody(cur)); err != nil {
+					return rc.Fail("put", "put-error", "PutPart of %d bytes through %s failed: %v", len(cur), stack, err)
+				}
+			}
+			// the plan of this round
+			del := g.Chance(1, 5)
+			nextLen := len(cur)
+			if g.Chance(1, 3) {
+				nextLen = drawLen()
+			}
+			next := pstRandomBytes(g.Draw(1<<62), nextLen)
+			wmode := pstTxRW
+			if txFreePut && g.Chance(3, 4) {
+				wmode = pstTxFree
+			}
+			rmode := g.Int(4)
+			slow := g.Int(total+1) - 1 // the shard store whose GetPart is slow this round (-1: none)
+			wDelay := []time.Duration{0, 300 * time.Microsecond, time.Millisecond, 2500 * time.Microsecond}[g.Int(4)]
+			rDelay := []time.Duration{0, 0, 700 * time.Microsecond}[g.Int(3)]
+			var sizes []int
+			yieldEvery := 0
+			if g.Chance(1, 3) {
+				// a slow consumer: the rewrite arrives while the part is streamed
+				sizes, yieldEvery = []int{stripe/2 + 1}, 1
+			} else {
+				sizes = pstReadSchedule(g)
+			}
+			missing := -1
+			if g.Chance(1, 4) {
+				missing = g.Int(total) // one shard lost before the race (within parity): the reader heals
+			}
+			if shardBottom == "sql" {
+				// (a heal write inside a read-only SQLite transaction takes the database's write
+				// lock behind the back of the write-connection model; ec-shard-faults covers it)
+				missing = -1
+			}
+			// A transactional write over filesystem shard stores is published by the stores'
+			// pre-commit hooks, after PutPart / DeletePart returned and released the part lock:
+			// whatever a concurrent reader sees then is one known root cause, not the lock's.
+			txWriteFs := wmode == pstTxRW && shardBottom == "fs"
+			flag := func(v *Violation) {
+				if txWriteFs {
+					v = rc.Fail("read-vs-write", "transactional-write-over-fs-shards-not-atomic-for-readers", "[%s/%s] %s", v.Oracle, v.FindingKey, v.Message)
+				}
+				rc.SoftFail(v)
+			}
+			wkind := "rewrite"
+			if del {
+				wkind = "delete"
+			}
+			wkey := wkind + ":" + pstModeNames[wmode] + ":" + shardBottom
+			if missing >= 0 {
+				if err := env.rawDelete(shards[missing], idA); err != nil {
+					return rc.Fail("harness", "harness", "cannot delete shard %d: %v", missing, err)
+				}
+				rc.Stats.Inc("probe.c17.race.rounds_with_missing_shard")
+			}
+			slept := false
+			if slow >= 0 {
+				shards[slow].Mutate = func(id partstore.PartId, b []byte) ([]byte, error) {
+					if !slept && id.Equal(idA) {
+						slept = true
+						rc.S.Sleep(1500 * time.Microsecond)
+					}
+					return b, nil
+				}
+			}
+			waits0, disagree0 := ecSeam.LockWaits, ecSeam.LockDisagree
+			var werr error
+			writer := rc.S.Go("writer", func(t *sim.Task) {
+				rc.S.Sleep(wDelay)
+				if del {
+					werr = env.del(wmode, idA)
+				} else {
+					werr = env.put(wmode, idA, seams.NewBody(next))
+				}
+			})
+			if rDelay > 0 {
+				rc.S.Sleep(rDelay)
+			}
+			mark := env.tripMark()
+			var got []byte
+			rerr := env.open(rmode, idA, func(rd io.ReadCloser) error {
+				var e error
+				got, e = seams.ReadAllSized(rd, sizes, yieldEvery, "c17.reader.read")
+				return e
+			})
+			if slow >= 0 {
+				shards[slow].Mutate = nil
+			}
+			for !writer.Done() {
+				rc.S.Sleep(time.Millisecond)
+			}
+			if p := TaskPanic(writer); p != "" {
+				return rc.Fail("panic", "panic:"+pstPanicSite(writer.PanicAt), "%s", p)
+			}
+			judged++
+			rc.Stats.Inc("probe.c17.race.rounds")
+			if ecSeam.LockWaits > waits0 {
+				rc.Stats.Inc("probe.c17.race.rounds_with_a_wait_for_the_part_lock")
+			}
+			if ecSeam.LockDisagree > disagree0 {
+				// the real lock admitted a caller while another one still held the part
+				rc.Stats.Inc("probe.c17.race.rounds_where_the_real_lock_did_not_exclude")
+			}
+			plan := fmt.Sprintf("%d+%d over %s shards, part of %d bytes; reader GetPart(%s) (start +%v, slow shard %d, missing shard %d, read sizes %v yield-every %d) vs %s (%s, start +%v, %d bytes)", data, parity, shardBottom, len(cur), pstModeNames[env.getMode(rmode)], rDelay, slow, missing, sizes, yieldEvery, wkind, pstModeNames[wmode], wDelay, len(next))
+			if t := env.tripsSince(mark); len(t) > 0 {
+				rc.Stats.Inc("probe.c17.read_would_deadlock")
+				rc.SoftFail(rc.Fail("hang", "read-blocks-forever:heal-write-fails", "%s: %s (the harness guard closed the pipe to go on)", plan, strings.Join(t, "; ")))
+			}
+			if werr != nil && txWriteFs {
+				flag(rc.Fail("put", "write-error:read-vs-"+wkey, "%s: the %s failed without any injected fault: %v", plan, wkind, werr))
+				for _, sh := range shards {
+					_ = env.rawDelete(sh, idA)
+				}
+				cur = nil
+				continue
+			}
+			if werr != nil {
+				return rc.Fail("put", "write-error:read-vs-"+wkey, "%s: the %s failed without any injected fault: %v", plan, wkind, werr)
+			}
+			outcome := ""
+			switch {
+			case rerr != nil && del && errors.Is(rerr, partstore.ErrPartNotFound):
+				outcome = "not-found"
+			case rerr != nil:
+				outcome = "FAILED"
+				flag(rc.Fail("degraded-read", "read-failed:read-vs-"+wkey, "%s: at most one shard was lost, yet the read failed: %v (after %d bytes)", plan, rerr, len(got)))
+			case bytes.Equal(got, cur):
+				outcome = "old"
+			case !del && bytes.Equal(got, next):
+				outcome = "new"
+			default:
+				outcome = "WRONG"
+				flag(rc.Fail("never-lies", "wrong-bytes:read-vs-"+wkey, "%s: the read returned, without error, bytes that are neither the part before the %s nor the part after it: against the old part: %s; against the new part: %s", plan, wkind, pstDiff(cur, got), pstDiff(next, got)))
+			}
+			rc.Stats.Inc("probe.c17.race.read_saw." + outcome)
+			rc.Logf("round %d: %s -> read %s (%d bytes, err=%v)", r, plan, outcome, len(got), rerr)
+			fmt.Fprintf(outcomes, "%d:%s|", r, outcome)
+			if del {
+				cur = nil
+			} else {
+				cur = next
+			}
+			// afterwards the part is exactly what the writer left
+			after, aerr := env.readAll(pstTxRO, idA, nil)
+			healed := ""
+			// the reader rewrote the lost shard inside its own transaction: the shard store
+			// publishes it when that transaction commits, after the part lock was released
+			healedInTx := missing >= 0 && env.getMode(rmode) != pstTxFree
+			var av *Violation
+			switch {
+			case cur == nil && aerr != nil && errors.Is(aerr, partstore.ErrPartNotFound):
+			case cur == nil:
+				av = rc.Fail("not-found", "deleted-part-not-gone:read-vs-"+wkey+healed, "%s: after the acknowledged delete (and the end of the read) the part does not read as not found: %d bytes, err=%v", plan, len(after), aerr)
+			case aerr != nil:
+				av = rc.Fail("content", "read-failed-after:read-vs-"+wkey+healed, "%s: the read after both had finished failed: %v", plan, aerr)
+			case !bytes.Equal(after, cur):
+				av = rc.Fail("content", "wrong-bytes-after:read-vs-"+wkey+healed, "%s: the read after both had finished returned other bytes than the writer's: %s", plan, pstDiff(cur, after))
+			}
+			if av == nil && cur != nil {
+				// ... and so does every shard (the encoding is a function of the content):
+				// a stale parity shard does not show in a healthy read
+				if err := env.put(pstTxRW, idRef, seams.NewBody(cur)); err != nil {
+					return rc.Fail("put", "put-error", "PutPart of %d bytes through %s failed: %v", len(cur), stack, err)
+				}
+				for i, sh := range shards {
+					have, herr := env.rawGet(sh, idA)
+					want, werr := env.rawGet(sh, idRef)
+					if werr != nil {
+						return rc.Fail("put", "shard-unreadable-after-put", "after PutPart shard store %d cannot read its shard: %v", i, werr)
+					}
+					if herr != nil || !bytes.Equal(have, want) {
+						av = rc.Fail("content", "stale-shard-after:read-vs-"+wkey, "%s: after both had finished the part reads exactly, but shard %d is not the shard of the writer's content (err=%v; %s): the redundancy is gone, the next degraded read reconstructs other bytes", plan, i, herr, pstDiff(want, have))
+						break
+					}
+				}
+			}
+			if av != nil && healedInTx && !txWriteFs {
+				av = rc.Fail("healing", "heal-in-reader-tx-published-after-concurrent-"+wkind, "%s [the reader healed shard %d inside its transaction; the healed shard of the OLD part is published when that transaction commits, outside the part lock, i.e. after the %s that waited for the reader]", av.Message, missing, wkind)
+			}
+			if av != nil {
+				// go on from a clean slate
+				flag(av)
+				rc.Logf("round %d: AFTER: %s", r, av.Message)
+				fmt.Fprintf(outcomes, "after:%s|", av.FindingKey)
+				for _, sh := range shards {
+					_ = env.rawDelete(sh, idA)
+				}
+				cur = nil
+			}
+		}
+		return nil
+	})
+	rc.NonTrivial = judged >= 3
+	rc.StateSig = fmt.Sprintf("%d+%d/%d/%s/%s", data, parity, stripeShard, shardBottom, hex.EncodeToString(outcomes.Sum(nil)[:8]))
+	return v, err
+}
+
+func init() {
+	Register(&Scenario{
+		Prop: "C17", Name: "ec-read-vs-rewrite", Policy: pstC17RacePolicy,
+		Rule: "erasure-coding stacks 2+1, 3+2 and 4+2 with shard stripe sizes 1024/2048/4096 over filesystem (2 in 3) or SQL shard stores; 3-6 rounds on one part id: a reader task (read-only tx, read-write tx, tx-free, WithTxReadClosers; drawn read sizes, one round in three a slow consumer that yields while streaming) overlaps with a writer task that rewrites the part (same length 2 in 3, else a length around 1-3 stripes) or deletes it (1 in 5), tx-free where the shard stores allow it (filesystem: 3 in 4) or in a transaction (anomalies of a transactional write over filesystem shards are filed under one known root cause: it is published by pre-commit hooks outside the part lock); the overlap is steered by drawn start offsets (0-2.5 ms), by one drawn shard store whose GetPart takes 1.5 ms (the rewrite falls between the reader's shard opens) and by scheduler preemption at every shard-store call; one round in four (filesystem shards) a shard is deleted beforehand so that the reader takes the heal path (shared lock -> exclusive lock -> heal writes); the seam above the store parks a caller exactly when the store's REAL per-part RWMutex would block it (TryLock on the mutex found through the store's lock map), never by a model of its own; oracle: the read returns exactly the part before or exactly the part after the write (or not-found for a delete), never an error (at most one shard is lost) and never other bytes; after both finished the part reads exactly as the writer left it and every stored shard equals the shard of a fresh write of that content; non-trivial = at least 3 rounds judged",
+		Real: append([]string{"partstore middleware erasurecoding (GetPart shared lock, getPartWithHealing, PutPart / DeletePart exclusive lock, rwPartLocker entry lifetime)", "github.com/klauspost/reedsolomon"}, pstRealStores...),
+		Stub: []string{"waiting for the part lock happens in the scheduler: the seam asks the real sync.RWMutex (TryLock/TryRLock via reflection on erasureCodingPartStore.partLocker) whether the call would block and parks the task instead of letting it block", "a reader holds the lock exclusively in that seam (reader/reader overlap on one part is not explored)", "no storage layer above the part stores", "shard stores wrapped by the pass-through pipe guard"},
+		Run:  runC17Race,
 	})
 }
